@@ -53,6 +53,27 @@ var properties = map[string]Property{
 		Rules: []string{"O-MAPRANGE", "O-KEYSOURCE", "O-POOL", "O-LIFO", "O-SEQ", "R-EVAL-WRITE", "G-IMPORTS"},
 		Explanation: "Decided (nearly the whole property, because order is structural in this code): every map range reachable during evaluation only stores the keys at consecutive indices of a slice resliced to len(map), and every path from the end of that loop to the function's return applies an ascending byte-wise string sort to that slice or passes the false edge of len(map) > 1; callers of the key accessor only read the slice, index the same map with its elements and release it after the loop (no use after release); every loop in the evaluation steps is a complete ascending loop (or the worklist's complete descending push loop) whose only exit is the loop condition; recursive descent takes W[len-1], shrinks W[:len-1], pushes children from len-1 down to 0 and never applies the next step after pushing. reflect.MapKeys/MapRange are outside the modelled reflect subset (G-IMPORTS). Not decided: nothing of substance; assumes sort.StringSlice.Sort sorts byte-wise.",
 	},
+	"C02": {
+		Level: "other",
+		Rules: []string{"P-RECOVER", "P-PANICTYPE", "P-ERRCHECK", "P-MEMO", "P-SCT", "ST-UNIFORM", "ST-BALANCE", "ST-TYPES", "ST-FRAMES", "TV-RULES", "TV-ACTIONS", "TV-WF", "TV-CATCHALL", "TV-ENGINE", "R-LOCK", "R-RESET", "G-IMPORTS"},
+		Explanation: "Decided (large structural part): (i) Parse registers, directly after taking the lock, a deferred closure that calls recover() unconditionally, stores a recovered error into the named error result and writes no other result; every explicit panic in parser code carries one of the four documented types; conversion errors (strconv, regexp, json) panic with a documented type or are propagated; (ii) the value stack is typed by abstract interpretation of the grammar (which translation validation ties to the running matcher): every action has one stack effect on all non-panicking paths (implicit defaults of exhaustive type switches are discharged from the producer types of the switched slot), every rule has one net effect, no derivation pops an empty stack or fails an unchecked assertion, frame save/load are paired and never index an empty list, and the start rule leaves the stack empty; the stack is empty at the start of every Parse (R-RESET); (iii) the grammar is well-formed (no left recursion / nullable repetition), the start rule is total, the parser is initialised without options (memoisation on), and hand-written recursion descends on the tree. Not decided: bounded time quantitatively, out-of-memory / stack depth for pathological nesting, bounds checks inside the generated matcher (rely on the end-symbol sentinel appended by reset: compared as boilerplate), the few index expressions in hand-written helpers (varBlockSet[1], literal[0], text[0:1]) which are listed as assumed.",
+		Assumptions: []string{"assumed obligations: varBlockSet[1] in the regexp callback (the pattern has one group), literal[0] (literals are built as one-element slices), text[0:1] in the negation action (the capture is never empty)"},
+	},
+	"C16": {
+		Level: "other",
+		Rules: []string{"N-KEYFLOW", "TV-RULES", "U-BYTES", "R-GLOBALS", "G-IMPORTS"},
+		Explanation: "Decided (structural part): the key of every member lookup during evaluation is the stored member name of a single-name step or a key of the object itself (no conversion, concatenation, slicing or call result on the way), and the constructor stores the name it is given verbatim; the identifier rules the running parser implements (character classes, escape alternatives) are those of the published grammar; the hand-written text transducers do not mix byte and character units (no byte-wise copy driven by a rune-wise range); the unescape routines consult no mutable package-level state. Not decided: that the three unescape routines invert JSON-style escaping for every string (a string-transducer equivalence).",
+	},
+	"C17": {
+		Level: "translation_validation",
+		Rules: []string{"TV-RULES", "TV-ACTIONS", "TV-WF", "TV-CATCHALL", "TV-ENGINE", "P-RESTRICT", "P-ERRCHECK", "P-PANICTYPE", "U-INDEX", "U-BYTES", "G-IMPORTS"},
+		Explanation: "Translation validation of the generated packrat parser against the published grammar: each of the grammar's rules is decompiled from the goto-template code of its rule function or inlined copies and shown equivalent after normalisation (literals to rune sequences, classes to interval sets, e+ to e e*, `-switch` choices under FIRST-set side conditions); every action body in Execute equals the grammar's action as Go syntax; the grammar-independent engine is the generator's boilerplate; the start rule is total and its catch-all captures the rest after the longest path prefix. Plus: every documented semantic restriction is enforced where the construct is built; the reported position is a character index taken from the token tree and is never used to slice a byte string. Not decided: that strconv / regexp accept what the prose calls 'valid for Go' (they are the definition).",
+	},
+	"C18": {
+		Level: "other",
+		Rules: []string{"TV-RULES", "W-SPACE", "W-CAPTURE", "N-NUMCONV", "R-GLOBALS", "G-IMPORTS"},
+		Explanation: "Decided (structural part): on the grammar that translation validation ties to the running parser, optional blanks are accepted on the stated side(s) of every occurrence of `[`, `]`, `,`, `:`, the seven comparison tokens, `||`, `&&`, `!`, `?(`, `(`, `)` and around a whole path; no capture whose text becomes a number, name, function name or regular expression can contain optional blanks; integers and numbers are converted in base 10 / as 64-bit floats from the unmodified text (so `+` and leading zeros are harmless); the text conversions consult no mutable package-level state. Not decided: quote-style equivalence and `.x` vs `['x']` beyond 'same constructor', `$`-omission behaviour.",
+	},
 	"C03": {
 		Level: "other",
 		Rules: []string{"P-POST-NONEMPTY", "P-RTERR", "P-PANICTYPE", "P-ASSERT", "P-NILGUARD", "P-IFACE-EQ", "V-VALIDATED", "V-ACCEPT", "P-SCT", "O-SEQ", "G-IMPORTS"},
@@ -66,8 +87,8 @@ var properties = map[string]Property{
 	},
 	"C09": {
 		Level: "other",
-		Rules: []string{"V-OPS", "V-SINGLE-RIGHT", "V-VALIDATED", "G-IMPORTS"},
-		Explanation: "Decided (structural part): each ordering builder realises one operator on every path — straight operands with its own comparator, exchanged operands with the mirror comparator — and the four operators are each realised by exactly one builder; every comparator's loop keeps exactly the elements for which `element OP right` holds and blanks the others; `!=` is NOT(==) over the same operands in order; no comparison is built with a per-member operand on the right of a member-independent one (evaluation reads only right[0]). Not decided: the Boolean-algebra clause (index-wise merge of per-member lists in AND/OR/NOT, the length-1 whole-match convention) and the token-to-builder wiring of the grammar (checked under C17's translation validation once built).",
+		Rules: []string{"V-OPS", "V-WIRE", "V-PREC", "V-SINGLE-RIGHT", "V-VALIDATED", "TV-RULES", "TV-ACTIONS", "G-IMPORTS"},
+		Explanation: "Decided (structural part): each ordering builder realises one operator on every path — straight operands with its own comparator, exchanged operands with the mirror comparator — and the four operators are each realised by exactly one builder; every comparator's loop keeps exactly the elements for which `element OP right` holds and blanks the others; `!=` is NOT(==) over the same operands in order; no comparison is built with a per-member operand on the right of a member-independent one (evaluation reads only right[0]). Not decided: the Boolean-algebra clause (index-wise merge of per-member lists in AND/OR/NOT, the length-1 whole-match convention) . Also decided: each comparison / logical token of the (translation-validated) grammar runs the builder of its own operator with (left, right) in source order, and `||` binds looser than `&&`, looser than comparison / parentheses / `!`.",
 	},
 	"C10": {
 		Level: "other",
@@ -86,8 +107,8 @@ var properties = map[string]Property{
 	},
 	"C14": {
 		Level: "other",
-		Rules: []string{"N-FUNCALL", "N-FORWARD", "P-RTERR", "O-POOL", "B-CHAIN", "G-IMPORTS"},
-		Explanation: "Decided (structural part): a function node calls its user function at exactly one site, outside loops; the filter function receives the node's current value; the aggregate receives the list of its private pooled sink, or element 0 as an array only under the parameter's value-group test being false and a successful checked assertion; the function's result is what is forwarded; ErrorFunctionFailed is built only when that call returned an error; the chain builder keeps its link target on the step just processed (so a step after an aggregate is linked behind the aggregate). Not decided: that the value-group flag is correct for the chain (the live `$.a.*.f()` defect), lookup order of function names (checked with the grammar actions once built).",
+		Rules: []string{"N-FUNCALL", "N-FORWARD", "P-RTERR", "O-POOL", "B-CHAIN", "P-RESTRICT", "G-IMPORTS"},
+		Explanation: "Decided (structural part): a function node calls its user function at exactly one site, outside loops; the filter function receives the node's current value; the aggregate receives the list of its private pooled sink, or element 0 as an array only under the parameter's value-group test being false and a successful checked assertion; the function's result is what is forwarded; ErrorFunctionFailed is built only when that call returned an error; the chain builder keeps its link target on the step just processed (so a step after an aggregate is linked behind the aggregate). Not decided: that the value-group flag is correct for the chain (the live `$.a.*.f()` defect), . Also decided: function names are looked up in the filter table first, then the aggregate table, else ErrorFunctionNotFound.",
 	},
 	"C15": {
 		Level: "other",
@@ -101,7 +122,7 @@ var properties = map[string]Property{
 	},
 	"C19": {
 		Level: "other",
-		Rules: []string{"R-RESET", "R-PEGRESET", "R-CONFIG", "R-TREE-CLOSED", "R-LOCK", "R-GLOBALS", "R-ENGINE", "G-IMPORTS"},
+		Rules: []string{"R-RESET", "R-PEGRESET", "R-CONFIG", "R-TREE-CLOSED", "R-LOCK", "R-GLOBALS", "ST-BALANCE", "ST-FRAMES", "R-ENGINE", "G-IMPORTS"},
 		Explanation: "Decided (necessary core): every field of the global parser's action state that any Parse-phase function writes is zeroed by the deferred closure on every exit of Parse (whole-struct store of the zero value, or field-complete), also on panic; every matcher variable captured by rule closures and written during matching is assigned by the generated reset closure on every path (token tree: overwritten from index 0 and trimmed on success); pointers to the caller's Config are stored only into that action state; the returned function reaches no Config maps and no parser-owned memory, and persistent parser memory reaches no tree; no package-level variable other than the lock-protected parser is written after init (so no cache keyed by path can exist). Not decided: equality of outcomes across histories as such.",
 	},
 }
